@@ -1,3 +1,4 @@
+import Cactus.Lemmas.Final
 import Cactus.Lemmas.Basic
 /-!
 # C06 — reference counts and identity are exact (first layer)
@@ -57,5 +58,36 @@ theorem C06_clone (s : State) (fh fw : List Nat) (r o : Nat) (ob : Obj) (n : Nat
 
 example : (({ heap := [{ strong := .cnt 1, weak := 1, links := some [], value := none, freed := false }] } : State).adopt 0 0 false).heap.map Obj.core
     = [(.cnt 1, 1, none, false)] := by decide
+
+
+/-! ## The property over whole histories (no hypothesis on the history: holds with or without the
+adoption contract, at operation boundaries and mid-teardown) -/
+
+/-- **C06.** In every reachable state, for every live object: `strong_count` equals the number of
+existing strong handles to it — held by the program (`ext`: handle table, raw pointers, unwrapped
+values), stored in values still in the heap (`inHeap`, including values of unreachable but not yet
+collected objects), or owned by pending teardown frames (`pend`, zero between operations) — and
+`weak_count` (the weak cell minus the implicit weak) equals the number of existing Weak handles. -/
+theorem C06_counts_exact {s : State} (h : Reachable s) (he : s.err = none) {t : Nat}
+    (hl : s.isLive t = true) :
+    s.strongNat t = s.ext t + s.inHeap t + s.pend t
+    ∧ s.weakNat t = s.extW t + s.inHeapW t + s.pendW t + 1 := by
+  obtain ⟨⟨hO, _, hC, hW, _⟩, _⟩ := reachable_core h he
+  refine ⟨hC t hl, ?_⟩
+  have hlt := State.isLive_lt hl
+  have := hW t hlt
+  obtain ⟨ob, n, hg, hf, hs⟩ := (State.isLive_eq_true_iff s t).mp hl
+  have himp := ((hO t ob hg).1 n hs).2.2.2
+  simp [State.implicitNat, hg, himp] at this
+  exact this
+
+/-- between operations no frame is pending, so the counts are exactly the handles of the program
+and of stored values -/
+theorem C06_counts_exact_quiescent {s : State} (h : Reachable s) (he : s.err = none)
+    (hq : s.stack = []) {t : Nat} (hl : s.isLive t = true) :
+    s.strongNat t = s.ext t + s.inHeap t ∧ s.weakNat t = s.extW t + s.inHeapW t + 1 := by
+  have := C06_counts_exact h he hl
+  simp [State.pend, State.pendW, hq, State.sumList] at this
+  exact this
 
 end Cactus
